@@ -459,11 +459,9 @@ func (g *caseGen) settings(e int, tight bool) {
 		return 1
 	}
 	if g.r.Chance(3, 4) {
-		// INITIAL_WINDOW_SIZE. Each value triggers a pass over the Go map of output buffers; the
-		// iteration order of a pass is only observable when it emits, so at most one value of a frame
-		// raises the window (the model is told one order per step).
+		// INITIAL_WINDOW_SIZE: several values in one frame - only the last ever comes into force
 		var grp []string
-		cur, raised := g.initW[e], false
+		cur := g.initW[e]
 		for i, n := 0, dup(); i < n; i++ {
 			w := initWins[g.r.Intn(len(initWins))]
 			if tight {
@@ -471,13 +469,6 @@ func (g *caseGen) settings(e int, tight bool) {
 			}
 			if g.r.Chance(1, 6) {
 				w = []int{2, 9, 1000, 16384, 65536, 100000}[g.r.Intn(6)]
-			}
-			if w > cur {
-				if raised {
-					w = []int{0, cur / 2, cur}[g.r.Intn(3)]
-				} else {
-					raised = true
-				}
 			}
 			grp = append(grp, fmt.Sprintf("4=%d", w))
 			cur = w
